@@ -36,8 +36,8 @@ func enumSchema(v float64) spec.Schema {
 // valid alternative is "the selected one"; oneOf: the unique valid one)
 func refDefaults(s *spec.Schema, obj map[string]interface{}, key string) []interface{} {
 	var out []interface{}
-	if ps, ok := s.Properties[key]; ok && ps.Default != nil {
-		out = append(out, ps.Default)
+	if ps, ok := s.Properties[key]; ok {
+		out = append(out, refOwnDefaults(&ps)...)
 	}
 	for i := range s.AllOf {
 		out = append(out, refDefaults(&s.AllOf[i], obj, key)...)
@@ -52,6 +52,19 @@ func refDefaults(s *spec.Schema, obj map[string]interface{}, key string) []inter
 		if refValid(&s.OneOf[i], obj) {
 			out = append(out, refDefaults(&s.OneOf[i], obj, key)...)
 		}
+	}
+	return out
+}
+
+// refOwnDefaults: the defaults a schema declares for the value it describes: its own, and those of
+// its allOf members (which all apply to that same value)
+func refOwnDefaults(s *spec.Schema) []interface{} {
+	var out []interface{}
+	if s.Default != nil {
+		out = append(out, s.Default)
+	}
+	for i := range s.AllOf {
+		out = append(out, refOwnDefaults(&s.AllOf[i])...)
 	}
 	return out
 }
@@ -102,7 +115,12 @@ func HarnessC18Defaults() {
 	s := spec.Schema{}
 	obj := map[string]interface{}{}
 	keys := []string{"a", "b", "k"}
-	switch verifChoose(8) {
+	switch verifChoose(9) {
+	case 8: // the default of a member is declared by an allOf member of its property schema
+		viaAllOf := spec.Schema{}
+		viaAllOf.AllOf = []spec.Schema{numSchema(10.0)}
+		s = objWith(map[string]spec.Schema{"a": viaAllOf, "b": numSchema(20.0)})
+		verifKF("C18-KF-DEFAULT-IN-ALLOF-OF-PROPERTY", true)
 	case 5: // properties next to oneOf: the matching alternative is the first or the second
 		s = objWith(map[string]spec.Schema{"b": numSchema(20.0)})
 		a1 := objWith(map[string]spec.Schema{"k": enumSchema(1), "a": numSchema(10.0)})
